@@ -675,3 +675,140 @@ def atoms_imply(S, op, lc, rc):
             if (aop == '<=' and n <= m) or (aop == '<' and n <= m + 1) or (aop == '==' and n <= m):
                 return True
     return False
+
+
+# --------------------------------------------------------------------------
+# locksets
+# --------------------------------------------------------------------------
+
+LOCK_FUNCS = {'___mutex_lock': ('lock', 0), '___mutex_unlock': ('unlock', 0),
+              'spin_lock': ('lock', 0), 'spin_unlock': ('unlock', 0),
+              'spin_lock_sigmask': ('lock+sig', 0), 'spin_unlock_sigmask': ('unlock+sig', 0),
+              'fallback_spin_lock': ('lock', 0), 'fallback_spin_unlock': ('unlock', 0)}
+SIGBLOCK = 'SIGNALS-BLOCKED'
+
+
+def lock_id(arg):
+    """Identity of a lock object from the expression passed to a lock function:
+    record.field for members (any object of that type), name for globals."""
+    a = strip(arg)
+    if isinstance(a, dict) and a.get('k') == 'addr':
+        a = strip(a['e'])
+    if isinstance(a, dict) and a.get('k') == 'member':
+        return '%s.%s' % (a.get('record'), a['field'])
+    if isinstance(a, dict) and a.get('k') == 'var':
+        return a['name']
+    return canon(arg)
+
+
+def lock_effect(e):
+    """[(op, lockid)] with op in {'lock','unlock'} for a call event."""
+    if e['ev'] not in ('call', 'enter'):
+        return []
+    nm = e.get('callee')
+    if nm in LOCK_FUNCS and e['ev'] == 'call':
+        kind, ai = LOCK_FUNCS[nm]
+        lid = lock_id(e['args'][ai])
+        if kind == 'lock':
+            return [('lock', lid)]
+        if kind == 'unlock':
+            return [('unlock', lid)]
+        if kind == 'lock+sig':
+            return [('lock', SIGBLOCK), ('lock', lid)]
+        if kind == 'unlock+sig':
+            return [('unlock', lid), ('unlock', SIGBLOCK)]
+    if nm == 'pthr_sigmask' and e['ev'] == 'call':
+        how = strip(e['args'][0])
+        # SIG_BLOCK = 0, SIG_UNBLOCK = 1, SIG_SETMASK = 2 on Linux
+        if is_int(how, 0):
+            return [('lock', SIGBLOCK)]
+        if is_int(how, 2) or is_int(how, 1):
+            return [('unlock', SIGBLOCK)]
+    return []
+
+
+def locksets(fn, entry=frozenset()):
+    """Must-held lockset before every event: {(bid,i): frozenset((lockid, acquisition loc))}."""
+    def tr(e, S):
+        for (op, lid) in lock_effect(e):
+            if op == 'lock':
+                S = frozenset(x for x in S if x[0] != lid) | {(lid, e.get('loc'))}
+            else:
+                S = frozenset(x for x in S if x[0] != lid)
+        return S
+    init = frozenset((l, 'entry') for l in entry)
+    _, ev_in = forward(fn, init, tr, lambda a, b: a & b)
+    return ev_in
+
+
+def held(S):
+    return {x[0] for x in (S or ())}
+
+
+# --------------------------------------------------------------------------
+# callback sites
+# --------------------------------------------------------------------------
+
+# function-pointer fields through which *user* code is entered.  kind: the
+# object kind whose callback this is; unreg: whether the callback may
+# unregister (and the caller free) library objects.
+CALLBACK_FIELDS = {
+    ('iv_fd_', 'handler_in'): 'fd', ('iv_fd_', 'handler_out'): 'fd', ('iv_fd_', 'handler_err'): 'fd',
+    ('iv_task_', 'handler'): 'task', ('iv_timer_', 'handler'): 'timer',
+    ('iv_event', 'handler'): 'event', ('iv_event_raw', 'handler'): 'event_raw',
+    ('iv_signal', 'handler'): 'signal', ('iv_wait_interest', 'handler'): 'wait',
+    ('iv_inotify_watch', 'handler'): 'inotify_watch',
+    ('iv_work_item', 'work'): 'work', ('iv_work_item', 'completion'): 'completion',
+}
+HOOK_FIELDS = {
+    ('iv_work_pool', 'thread_start'): 'pool hook', ('iv_work_pool', 'thread_stop'): 'pool hook',
+    ('work_pool_priv', 'thread_start'): 'pool hook', ('work_pool_priv', 'thread_stop'): 'pool hook',
+    ('iv_thread', 'start_routine'): 'thread body',
+    ('iv_tls_user', 'init_thread'): 'tls hook', ('iv_tls_user', 'deinit_thread'): 'tls hook',
+    ('iv_fd_pump', 'set_bands'): 'pump hook',
+    ('iv_avl_tree', 'compare'): 'comparator',
+}
+
+
+def callback_kind(e):
+    """For an indirect call event: ('callback', kind) / ('hook', kind) /
+    ('method', slot) / ('param', name) / None."""
+    if e['ev'] != 'call' or 'fnexpr' not in e:
+        return None
+    lm = last_member(e['fnexpr'])
+    if lm in CALLBACK_FIELDS:
+        return ('callback', CALLBACK_FIELDS[lm])
+    if lm in HOOK_FIELDS:
+        return ('hook', HOOK_FIELDS[lm])
+    if lm and lm[0] == 'iv_fd_poll_method':
+        return ('method', lm[1])
+    v = strip(e['fnexpr'])
+    if isinstance(v, dict) and v.get('k') == 'var':
+        return ('param', v['name'])
+    return ('unknown', canon(e['fnexpr']))
+
+
+def must_pass_from_block(fn, start_block, pred, cut=frozenset()):
+    """{(bid,i): bool} — every path from the start of start_block to the point
+    executed an event matching pred."""
+    def tr(e, s):
+        return True if pred(e) else s
+    def edge(blk, si, s):
+        return None if (blk.id, si) in cut else s
+    _, ev_in = forward(fn, False, tr, lambda a, b: a and b, edge=edge, start=start_block)
+    return ev_in
+
+
+def exits_of(fn):
+    """Program points at which the function returns normally: (bid, i) of each
+    `ret` event of the root function, and the exit block for void fallthrough."""
+    pts = []
+    for b, blk in fn.blocks.items():
+        for i, e in enumerate(blk.events):
+            if e['ev'] == 'ret' and not e.get('chain'):
+                pts.append((b, i, e))
+    return pts
+
+
+def atoms_reading(S, key):
+    return [a for a in (S or ()) if key in a[3]]
